@@ -142,6 +142,14 @@ func (a *impAnalysis) findFilePreserving() map[string]bool {
 							writesFile = true
 						}
 					}
+					// clone := *recv — a copy of the whole struct carries the file along
+					for _, rhs := range x.Rhs {
+						if st, ok := core.Unparen(rhs).(*ast.StarExpr); ok {
+							if id, ok := core.Unparen(st.X).(*ast.Ident); ok && id.Name == recv && recv != "" {
+								derives = true
+							}
+						}
+					}
 				case *ast.CompositeLit:
 					if a.isVisitor(a.info.TypeOf(x)) {
 						for _, e := range x.Elts {
